@@ -252,6 +252,15 @@ func play(sc Script, out *bufio.Writer) {
 			rec["fields"] = fieldIDs(line)
 			rec["hooks"] = append([]int{}, hookLog...)
 			rec["hookobs"] = hookObs(line)
+			// the per-event override of the Go context: Ctx(nil) means "no context" (hooks see the background context) and
+			// Ctx(c) means c, whatever context the logger carries
+			hookLog, hookCtx = nil, nil
+			l.Warn().Ctx(nil).Msg("n") //nolint:staticcheck // a nil context is exactly the case
+			rec["hookctxnil"] = append([]int{}, hookCtx...)
+			hookLog, hookCtx = nil, nil
+			l.Warn().Ctx(context.WithValue(context.Background(), prog.CtxKey{}, 99)).Msg("s")
+			rec["hookctxset"] = append([]int{}, hookCtx...)
+			hookLog, hookCtx = nil, nil
 			rec["hookctx"] = append([]int{}, hookCtx...)
 			rec["nested"] = append([]int{}, nested...)
 			rec["debug"] = wroteDebug
